@@ -19,7 +19,7 @@ ASSUMPTIONS = ['workers share no memory (forked copies): completion order is the
 TRUSTED = []
 FLOOR = {'quick': 150, 'thorough': 1500}
 BUDGET = {'quick': 110, 'thorough': 1500}
-N = {'quick': 320, 'thorough': 5000}
+N = {'quick': 420, 'thorough': 6000}
 REQUIRED = {'quick': {'parallel_calls': 60, 'completion_orders': 10, 'hung_worker_calls': 10,
                       'second_or_later_calls': 200},
             'thorough': {'parallel_calls': 600, 'completion_orders': 50, 'hung_worker_calls': 100,
@@ -90,10 +90,13 @@ def run_case(case):
             return res
 
     # script
-    ncalls = rng.randint(2, 4)
+    long_history = rng.random() < 0.2           # many short calls with freshly built query objects
+    ncalls = rng.randint(8, 14) if long_history else rng.randint(2, 4)
+    if long_history:
+        bump('long_histories')
     script = []
     for ci in range(ncalls):
-        k = rng.randint(1, 5)
+        k = rng.randint(1, 2) if long_history else rng.randint(1, 5)
         idxs = [rng.randrange(len(pool)) for _ in range(k)]      # duplicates possible
         if rng.random() < 0.3 and script:
             idxs = list(script[-1]['idxs'])
@@ -109,8 +112,12 @@ def run_case(case):
             keys = list(range(len(idxs)))
         else:
             keys = rng.sample(range(0, 60), len(idxs))
-        multi = rng.random() < 0.4
+        multi = rng.random() < (0.1 if long_history else 0.4)
         call = {'idxs': idxs, 'keys': keys, 'multi': multi}
+        if rng.random() < 0.3:
+            # a generous budget that never expires must not change anything
+            call['budget'] = rng.choice([{'inference_timeout': 1000}, {'total_timeout': 2000},
+                                         {'total_timeout': 2000, 'inference_timeout': 900, 'preprocessing_timeout': 900}])
         if multi:
             call['delays'] = {str(k_): round(rng.choice([0, 0, 0.05, 0.1, 0.2, 0.3]), 2) for k_ in keys}
             if rng.random() < 0.25 and len(idxs) >= 2:
@@ -137,8 +144,14 @@ def run_case(case):
             tag = 'call%d%s' % (ci + 1, '/parallel' if call['multi'] else '/sequential')
             if ci:
                 bump('second_or_later_calls')
+            if call.get('budget'):
+                bump('calls_with_generous_budget')
             try:
-                df = m.inference(queries, multi_inference=call['multi'])
+                df = m.inference(queries, multi_inference=call['multi'], **call.get('budget', {}))
+                del queries
+                if long_history:
+                    import gc
+                    gc.collect()                 # let freed query objects' addresses be reused
             except Exception as e:
                 if type(e).__name__ == 'SoftTimeout':
                     raise
@@ -199,7 +212,8 @@ def run_case(case):
                     viol('history:row-flagged-timed-out-without-budget%s' % (':other-worker-hung' if 'hang' in call else ''),
                          script=script, call=tag, row=j, query=texts[i])
                 elif got_res[j] != ref[i]:
-                    viol('history:answer-differs-from-fresh-single-query:%s' % ('later-call' if ci else 'first-call'),
+                    viol('history:answer-differs-from-fresh-single-query:%s%s' % ('later-call' if ci else 'first-call',
+                                                                                  ':with-budget' if call.get('budget') else ''),
                          script=script, call=tag, row=j, query=texts[i], got=got_res[j], fresh=ref[i])
     finally:
         mon.cleanup()
